@@ -5,6 +5,7 @@ _handle, _execute_custom_command, finish) on a fake request socket and a scripte
 records everything the handler does to its environment, and renders cases for
 coq/Corr/SrvCorr.v.  Nothing here sleeps, opens a socket or starts a thread.
 """
+import logging
 import queue
 import socket
 import types
@@ -153,6 +154,9 @@ class Patched:
         self.S = S
         self.saved = (S.time, S.Queue)
         S.time = types.SimpleNamespace(sleep=lambda s: None, time=lambda: 0.0)
+        # the handlers log every rejected byte to $ACSDATA/sim-server.log: keep the file small
+        self.log_level = logging.root.manager.disable
+        logging.disable(logging.CRITICAL)
         if self.qscript is not None:
             script = list(self.qscript)
 
@@ -170,6 +174,7 @@ class Patched:
 
     def __exit__(self, *a):
         self.S.time, self.S.Queue = self.saved
+        logging.disable(self.log_level)
 
 
 def merge_log(log):
